@@ -112,6 +112,16 @@ def make_stream(rng, kind):
         valid = gens.msg_header(rng).serialize() + m.serialize()
         s = s + MAGIC + struct.pack(b">I", 2 ** 32 - k_) + valid + gens.rb(rng, k_)
         EXPECT_REFUSED_AFTER[0] = len(parts)
+    elif kind == "toobig_magicbytes":
+        # an over-limit length field whose bytes are bytes of the magic itself (a doubled magic and the like), in front of
+        # what would be a perfectly valid frame if those bytes were dropped
+        _TOOBIG[0] += 1
+        lb = [MAGIC, MAGIC[:1] * 4, MAGIC[::-1], MAGIC[:1] + b"\x00\x00\x05", MAGIC[3:] + MAGIC[1:2] + gens.rb(rng, 2),
+              MAGIC[1:3] + b"\x00\x01"][_TOOBIG[0] % 6]
+        m = gens.message(rng)
+        valid = gens.msg_header(rng).serialize() + m.serialize()
+        s = s + MAGIC + lb + struct.pack(b">I", len(valid)) + valid
+        EXPECT_REFUSED_AFTER[0] = len(parts)
     elif kind == "tail_partial":
         # … or in an incomplete, so far well-formed header: not refused, the receiver waits
         s = s + (MAGIC + struct.pack(b">I", rng.randrange(0, 300)))[:rng.randrange(1, 8)]
@@ -211,7 +221,8 @@ def run(ctx):
     socket_path(ctx, res)
     ops, impl = [], []
     kinds = ["plain", "badmagic", "toobig", "atlimit", "pastend", "zerolen", "garbagepayload", "mutated", "long", "short", "short",
-             "tail_badmagic", "tail_toobig", "tail_partial", "tail_badmagic", "toobig_wrap", "toobig_wrap"]
+             "tail_badmagic", "tail_toobig", "tail_partial", "tail_badmagic", "toobig_wrap", "toobig_wrap",
+             "toobig_magicbytes", "toobig_magicbytes"]
 
     def one(chunks, stream_id, whole_line):
         line, payloads, err = impl_feed(chunks)
